@@ -22,8 +22,8 @@ type fault struct {
 	// extras are helper settings added at the top level of the configuration
 	// (only when the target is a struct, which does not read them): they are
 	// reached through the reference at the fault position only
-	extras map[string]*model.Node
-	noSource     bool   // no value exists that could carry a source: not demanded
+	extras   map[string]*model.Node
+	noSource bool // no value exists that could carry a source: not demanded
 }
 
 func sub(kv ...interface{}) *model.Node {
@@ -59,7 +59,7 @@ func hasTag(tag, name string) bool {
 // faultEnv is what the fault kinds need to know about the case.
 type faultEnv struct {
 	pick      func(n int) int
-	topStruct bool                // the Unpack target is a struct: unknown top-level keys are not read
+	topStruct bool                 // the Unpack target is a struct: unknown top-level keys are not read
 	primFor   func(p []seg) string // dotted path of a primitive setting elsewhere in the valid tree ("" if none)
 }
 
